@@ -88,6 +88,14 @@ def analyse_tree(tree: ast.Module, relpath: str):
                     guard = p
                 p = getattr(p, "_parent", None)
             if guard is None:
+                # early-return memo:  if K in C: return C[K]  ...  C[K] = E
+                cname = src(t.value)
+                for m_ in ast.walk(fn):
+                    if isinstance(m_, ast.If) and cname in src(m_.test) and " in " in src(m_.test) and \
+                            any(isinstance(r_, ast.Return) and r_.value is not None and cname in src(r_.value) for r_ in ast.walk(m_)):
+                        guard = m_
+                        break
+            if guard is None:
                 continue
             if kind == "self" and fn.name == "__init__":
                 continue
@@ -121,6 +129,57 @@ def analyse_tree(tree: ast.Module, relpath: str):
                 if (sa - ka) and not lossy:
                     problems.append(("state", where, n, f"module-level cache `{src(t.value)}` stores a value computed from object state "
                                                         f"(self.{sorted(sa - ka)[0]}) that the key does not contain: objects share entries"))
+        # the object put into the cache is modified afterwards (the cache then holds the modified object)
+        for fn2, st in [x for x in stores if x[0] is fn]:
+            v_ = st.value
+            if isinstance(v_, ast.Name):
+                x = v_.id
+                for m in ast.walk(fn):
+                    if isinstance(m, (ast.Assign, ast.AugAssign)) and getattr(m, "lineno", 0) > st.lineno:
+                        tg = m.targets[0] if isinstance(m, ast.Assign) else m.target
+                        root = tg
+                        while isinstance(root, (ast.Subscript, ast.Attribute)):
+                            root = root.value
+                        if isinstance(tg, (ast.Subscript, ast.Attribute)) and isinstance(root, ast.Name) and root.id == x or \
+                                (isinstance(m, ast.AugAssign) and isinstance(tg, ast.Name) and tg.id == x):
+                            problems.append(("mutate", f"{relpath}:{fn.name}", m, f"`{x}` was stored in the cache `{src(st.targets[0].value)}` and is "
+                                             f"modified in place afterwards (`{norm_stmt(m)[:80]}`): the cached entry is not the value that was "
+                                             "computed for its key"))
+                            break
+        # tuple caches:  self.X = (value, key)  validated by  self.X[1] == key
+        for n in ast.walk(fn):
+            if fn.name == "__init__":
+                break
+            if isinstance(n, ast.Assign) and len(n.targets) == 1 and isinstance(n.targets[0], ast.Attribute) and \
+                    isinstance(n.targets[0].value, ast.Name) and n.targets[0].value.id == "self" and isinstance(n.value, ast.Tuple) and len(n.value.elts) == 2:
+                attr = n.targets[0].attr
+                if not any(isinstance(c, ast.Compare) and f"self.{attr}[1]" in src(c) for c in ast.walk(fn)):
+                    continue
+                stores.append((fn, n))
+                vexpr, kexpr = n.value.elts
+                # names the stored value depends on (flow-insensitive closure over local definitions)
+                dep = set(_names(vexpr))
+                changed = True
+                all_defs = {}
+                for a in ast.walk(fn):
+                    if isinstance(a, ast.Assign) and len(a.targets) == 1 and isinstance(a.targets[0], ast.Name):
+                        all_defs.setdefault(a.targets[0].id, []).append(a.value)
+                while changed:
+                    changed = False
+                    for nm in list(dep):
+                        for d in all_defs.get(nm, []):
+                            new = _names(d) - dep
+                            if new:
+                                dep |= new
+                                changed = True
+                knames = _names(kexpr)
+                for nm in list(knames):
+                    for d in all_defs.get(nm, []):
+                        knames |= _names(d)
+                missing = [p_ for p_ in params if p_ in dep and p_ not in knames]
+                if missing:
+                    problems.append(("key", f"{relpath}:{fn.name}", n, f"the cached value `{src(vexpr)}` depends on parameter(s) {missing} but the "
+                                     f"validity key `{src(kexpr)}` does not: a later call with another {missing[0]} gets the stale value"))
         # in-place mutation of a value read from a cache container
         for n in ast.walk(fn):
             if isinstance(n, ast.Assign) and len(n.targets) == 1 and isinstance(n.targets[0], ast.Name) and isinstance(n.value, ast.Subscript):
@@ -150,7 +209,7 @@ def check_caches(ctx, repo: Repo, pid: str, module_names: List[str]):
     # positive control
     ctl_stores, ctl_problems = analyse_tree(ast.parse(CONTROL), "<control>")
     kinds = {p[0] for p in ctl_problems}
-    if not ({"key", "lossy", "mutate"} <= kinds) or len(ctl_stores) != 2:
+    if not ({"key", "lossy", "mutate"} <= kinds) or len(ctl_stores) < 2:
         ctx.inconclusive("CACHE", f"{pid}.cache.control", "positive control of the cache rule did not match", "<control>",
                          witness=f"stores={len(ctl_stores)}, kinds={sorted(kinds)}")
         return
